@@ -59,6 +59,14 @@ where
 
             match ready!(self.as_mut().project().inner.poll_next(cx)?) {
                 Some(r) => {
+                    // Before reading this request the inner channel may have processed
+                    // cancellations, expirations or abandoned requests. Only throttle if the limit
+                    // is still reached by the *other* in-flight requests.
+                    if self.as_mut().in_flight_requests().saturating_sub(1)
+                        < *self.as_mut().project().max_in_flight_requests
+                    {
+                        return Poll::Ready(Some(Ok(r)));
+                    }
                     let _entered = r.span.enter();
                     tracing::info!(
                         in_flight_requests = self.as_mut().in_flight_requests(),
